@@ -59,13 +59,21 @@ pub mod pipeline {
         renderer: Renderer,
     }
 
-    fn convert_filter(filter: Search) -> filter::Filter {
-        match filter {
-            Search::And(vec) => filter::Filter::And(vec.into_iter().map(convert_filter).collect()),
-            Search::Or(vec) => filter::Filter::Or(vec.into_iter().map(convert_filter).collect()),
-            Search::Not(search) => filter::Filter::Not(Box::new(convert_filter(*search))),
-            Search::Keyword(keyword) => filter::Filter::Keyword(keyword.to_regex()),
-        }
+    fn convert_filter(filter: Search) -> Result<filter::Filter, regex::Error> {
+        Ok(match filter {
+            Search::And(vec) => filter::Filter::And(
+                vec.into_iter()
+                    .map(convert_filter)
+                    .collect::<Result<Vec<_>, _>>()?,
+            ),
+            Search::Or(vec) => filter::Filter::Or(
+                vec.into_iter()
+                    .map(convert_filter)
+                    .collect::<Result<Vec<_>, _>>()?,
+            ),
+            Search::Not(search) => filter::Filter::Not(Box::new(convert_filter(*search)?)),
+            Search::Keyword(keyword) => filter::Filter::Keyword(keyword.try_to_regex()?),
+        })
     }
 
     impl Pipeline {
@@ -137,7 +145,7 @@ pub mod pipeline {
             output_mode: OutputMode,
         ) -> Result<Self, Error> {
             let query = pipeline.parse()?;
-            let filters = convert_filter(query.search);
+            let filters = convert_filter(query.search)?;
             let mut in_agg = false;
             let mut pre_agg: Vec<Box<dyn operator::UnaryPreAggOperator>> = Vec::new();
             let mut post_agg: Vec<Box<dyn operator::AggregateOperator>> = Vec::new();
